@@ -2,19 +2,24 @@
 //! `vth <property> [--tier quick|thorough] [--seed N] --out DIR [--replay FILE] [extra…]`
 //! Drives the real versatiles-rs crates; writes cases.txt / impl.txt / stats.json into DIR.
 mod common;
-mod c05;
 mod indep_mvt;
 mod c04;
+mod c05;
 mod c07;
+mod c14;
 mod c10;
 mod c11;
 mod c15;
 mod c17;
 mod c18;
+mod c12;
 mod c13;
 mod c20;
 mod c06;
 mod memsrc;
+mod indep_formats;
+mod c16;
+mod c01;
 
 use common::Args;
 use std::path::PathBuf;
@@ -38,12 +43,16 @@ fn main() {
 		"C15" => c15::run(&args),
 		"C17" => c17::run(&args),
 		"C04" => c04::run(&args),
+		"C05" => c05::run(&args),
 		"C18" => c18::run(&args),
 		"C07" => c07::run(&args),
+		"C14" => c14::run(&args),
+		"C12" => c12::run(&args),
 		"C13" => c13::run(&args),
-		"C05" => c05::run(&args),
 		"C20" => c20::run(&args),
 		"C06" => c06::run(&args),
+		"C16" => c16::run(&args),
+		"C01" => c01::run(&args),
 		_ => {
 			eprintln!("unknown property {prop}");
 			std::process::exit(2);
